@@ -63,8 +63,25 @@ func cacheKey(digest hotstuff.Hash, signature hotstuff.QuorumSignature) string {
 	signature.Participants().ForEach(func(id hotstuff.ID) {
 		_, _ = key.Write(id.ToBytes())
 	})
-	_, _ = key.Write(signature.ToBytes())
+	// a multi-signature is a list of signatures: the key must say where each one ends, or the same bytes
+	// divided differently among the same signers would be taken for the verified signature.
+	switch s := signature.(type) {
+	case crypto.Multi[*crypto.ECDSASignature]:
+		writeSignatures(&key, s)
+	case crypto.Multi[*crypto.EDDSASignature]:
+		writeSignatures(&key, s)
+	default:
+		_, _ = key.Write(signature.ToBytes())
+	}
 	return key.String()
+}
+
+func writeSignatures[T crypto.Signature](key *strings.Builder, signatures crypto.Multi[T]) {
+	for _, sig := range signatures {
+		b := sig.ToBytes()
+		_, _ = key.Write(hotstuff.View(len(b)).ToBytes())
+		_, _ = key.Write(b)
+	}
 }
 
 // Sign signs a message and adds it to the cache for use during verification.
